@@ -216,7 +216,8 @@ def setup(srv, data=True):
 
 
 SNAP_Q = ("SHOW DATABASES; SHOW USERS; SHOW GRANTS FOR grantee; SHOW GRANTS FOR rouser; SHOW GRANTS FOR wouser; "
-          "SHOW GRANTS FOR otheruser; SHOW GRANTS FOR pwuser; SHOW RETENTION POLICIES ON db1; SHOW RETENTION POLICIES ON db2")
+          "SHOW GRANTS FOR otheruser; SHOW GRANTS FOR pwuser; SHOW RETENTION POLICIES ON db1; SHOW RETENTION POLICIES ON db2; "
+          "SHOW CONTINUOUS QUERIES")
 # (measurement listings come from the stores and lag behind writes: data-level effects are checked by landed_cases / seeds_present)
 
 
@@ -364,3 +365,128 @@ def can(cls, what, db, overrides=None):
         return True
     p = privs.get(db)
     return p == "ALL" or p == what
+
+
+# ---------------------------------------------------------------------------------------------------------------
+# well-formed protocol bodies (hand-rolled protobuf + snappy block format; python stdlib only)
+
+import struct
+
+
+def pb_varint(n):
+    n &= (1 << 64) - 1
+    out = bytearray()
+    while True:
+        b = n & 0x7F
+        n >>= 7
+        if n:
+            out.append(b | 0x80)
+        else:
+            out.append(b)
+            return bytes(out)
+
+
+def pb_bytes(fno, b):
+    if isinstance(b, str):
+        b = b.encode()
+    return pb_varint((fno << 3) | 2) + pb_varint(len(b)) + b
+
+
+def pb_int(fno, n):
+    return pb_varint((fno << 3) | 0) + pb_varint(n)
+
+
+def pb_double(fno, x):
+    return pb_varint((fno << 3) | 1) + struct.pack("<d", x)
+
+
+def snappy_block(data):
+    """valid snappy block consisting of literals only"""
+    out = bytearray(pb_varint(len(data)))
+    i = 0
+    while i < len(data):
+        chunk = data[i:i + 60]
+        out.append((len(chunk) - 1) << 2)
+        out += chunk
+        i += len(chunk)
+    return bytes(out)
+
+
+def snappy_decode(data):
+    """snappy block decoder (literals and copies); returns None when malformed"""
+    try:
+        n, shift, i = 0, 0, 0
+        while True:
+            b = data[i]
+            i += 1
+            n |= (b & 0x7F) << shift
+            if not b & 0x80:
+                break
+            shift += 7
+        out = bytearray()
+        while i < len(data):
+            tag = data[i]
+            i += 1
+            t = tag & 3
+            if t == 0:
+                ln = tag >> 2
+                if ln >= 60:
+                    k = ln - 59
+                    ln = int.from_bytes(data[i:i + k], "little")
+                    i += k
+                ln += 1
+                out += data[i:i + ln]
+                i += ln
+                continue
+            if t == 1:
+                ln = ((tag >> 2) & 7) + 4
+                off = ((tag >> 5) << 8) | data[i]
+                i += 1
+            elif t == 2:
+                ln = (tag >> 2) + 1
+                off = int.from_bytes(data[i:i + 2], "little")
+                i += 2
+            else:
+                ln = (tag >> 2) + 1
+                off = int.from_bytes(data[i:i + 4], "little")
+                i += 4
+            for _ in range(ln):
+                out.append(out[-off])
+        return bytes(out) if len(out) == n else None
+    except (IndexError, ValueError):
+        return None
+
+
+def prom_write_body(metric=None, labels=None, value=1.0, ts_ms=None, md_family=None):
+    """snappy(prompb.WriteRequest) with one time series of one sample and/or one metadata entry"""
+    msg = b""
+    if metric:
+        ls = [("__name__", metric)] + sorted((labels or {}).items())
+        ts = b"".join(pb_bytes(1, pb_bytes(1, k) + pb_bytes(2, v)) for k, v in ls)
+        ts += pb_bytes(2, pb_double(1, value) + pb_int(2, ts_ms if ts_ms is not None else int(time.time() * 1000)))
+        msg += pb_bytes(1, ts)
+    if md_family:
+        msg += pb_bytes(3, pb_int(1, 2) + pb_bytes(2, md_family) + pb_bytes(4, "c19 help") + pb_bytes(5, "c19unit"))
+    return snappy_block(msg)
+
+
+def prom_read_body(metric, start_ms=0, end_ms=None):
+    """snappy(prompb.ReadRequest): one query, matcher __name__ = metric"""
+    end_ms = end_ms if end_ms is not None else int(time.time() * 1000) + 3600000
+    q = pb_int(1, start_ms) + pb_int(2, end_ms) + pb_bytes(3, pb_int(1, 0) + pb_bytes(2, "__name__") + pb_bytes(3, metric))
+    return snappy_block(pb_bytes(1, q))
+
+
+def req_raw(srv, method, path, params=None, headers=None, body=None, timeout=20):
+    url = path
+    if params:
+        url += ("&" if "?" in url else "?") + urllib.parse.urlencode(params, doseq=True)
+    conn = http.client.HTTPConnection("127.0.0.1", srv.port, timeout=timeout)
+    try:
+        conn.request(method, url, body=body, headers=headers or {})
+        r = conn.getresponse()
+        return r.status, r.read(1 << 22)
+    except (OSError, http.client.HTTPException) as e:
+        return -1, ("transport error: %r" % (e,)).encode()
+    finally:
+        conn.close()
